@@ -89,6 +89,9 @@ int main(void) {
                 hash_one(buf, r > 0 ? (size_t)r : 0, hx);
                 printf(" r=%zd/%zu/%s!%d", r, r > 0 ? (size_t)r : 0, hx, zck_is_error(zck)); free(buf); break; }
             case 'q': printf(" q=%d!%d", zck_close(zck), zck_is_error(zck)); break;
+            case 'v': printf(" v=%d!%d", zck_validate_checksums(zck), zck_is_error(zck)); break;
+            case 'f': printf(" f=%d!%d", zck_find_valid_chunks(zck), zck_is_error(zck)); break;
+            case 'e': printf(" e=%d!%d", zck_clear_error(zck) ? 1 : 0, zck_is_error(zck)); break;
             case 'g': case 'c': case 'G': {
                 char *p; long k = strtol(o + 1, &p, 10);
                 zckChunk *c = nth(zck, k);
